@@ -335,3 +335,104 @@ func HarnessC13EngineSteps() {
 	}
 	zz.Observe("live", infs.live(zzObj("ComposedA").GroupVersionKind()), infs.live(zzObj("XR").GroupVersionKind()))
 }
+
+// HarnessC13StopRetry: event-handler removals may fail. A Stop or StopWatches
+// that reports success has really removed the handlers it reports stopped,
+// also when it is the retry of a call that failed half-way; a controller
+// restarted afterwards has one live handler per recorded watch, never two.
+//
+//gosym:harness seqgo
+//gosym:cover removal-failed retried restarted-clean stopwatches-retried
+func HarnessC13StopRetry() {
+	infs := &zzInformers{}
+	elected := make(chan struct{})
+	close(elected)
+	e := New(&zzMgr{elected: elected}, infs, nil, nil)
+	ctrl := &zzCtrl{started: make(chan context.Context, 8)}
+	newCtrl := WithNewControllerFn(func(string, manager.Manager, kcontroller.Options) (kcontroller.Controller, error) { return ctrl, nil })
+	const name = "composite/xrs.example.org"
+	all := zzWatches()
+
+	zz.Assert("start-no-error", e.Start(name, newCtrl) == nil)
+	ctx := <-ctrl.started
+	var ws []Watch
+	for k, w := range all {
+		if zz.Bool("watch" + string(rune('0'+k))) {
+			ws = append(ws, w)
+		}
+	}
+	if len(ws) > 0 {
+		zz.Assert("startwatches-no-error", e.StartWatches(name, ws...) == nil)
+	}
+	liveOK := func(label string) {
+		got, _ := e.GetWatches(name)
+		for _, kind := range zzKinds {
+			gvk := zzObj(kind).GroupVersionKind()
+			types := 0
+			for _, g := range got {
+				if g.GVK == gvk {
+					types++
+				}
+			}
+			zz.Assert(label, infs.live(gvk) <= types)
+		}
+	}
+
+	infs.failRemovals = zz.Choose("failingRemovals", 3)
+	if zz.Bool("viaStopWatches") {
+		// stop every watch through StopWatches, retrying on error
+		var ids []WatchID
+		for _, w := range ws {
+			ids = append(ids, zzID(w))
+		}
+		failed := false
+		for try := 0; try < 3; try++ {
+			_, err := e.StopWatches(context.Background(), name, ids...)
+			if err != nil {
+				failed = true
+				zz.Cover("removal-failed")
+				continue
+			}
+			if failed {
+				zz.Cover("stopwatches-retried")
+			}
+			got, _ := e.GetWatches(name)
+			zz.Assert("successful-stopwatches-leaves-none-of-them-recorded", len(got) == 0)
+			for _, kind := range zzKinds {
+				zz.Assert("successful-stopwatches-removed-the-event-handlers", infs.live(zzObj(kind).GroupVersionKind()) == 0)
+			}
+			break
+		}
+		return
+	}
+	failed := false
+	stopped := false
+	for try := 0; try < 3; try++ {
+		if err := e.Stop(context.Background(), name); err != nil {
+			failed = true
+			zz.Cover("removal-failed")
+			continue
+		}
+		stopped = true
+		if failed {
+			zz.Cover("retried")
+		}
+		zz.Assert("successful-stop-cancelled-the-controller", ctx.Err() != nil)
+		zz.Assert("not-running-after-successful-stop", !e.IsRunning(name))
+		for _, kind := range zzKinds {
+			zz.Assert("successful-stop-removed-all-event-handlers", infs.live(zzObj(kind).GroupVersionKind()) == 0)
+		}
+		break
+	}
+	if !stopped {
+		return
+	}
+	// the XRD reconciler starts the controller again (e.g. the XRD is re-created)
+	zz.Assert("restart-no-error", e.Start(name, newCtrl) == nil)
+	<-ctrl.started
+	if len(ws) > 0 {
+		zz.Assert("restart-watches-no-error", e.StartWatches(name, ws...) == nil)
+	}
+	zz.Cover("restarted-clean")
+	liveOK("at-most-one-live-watch-per-type-and-kind-after-restart")
+}
